@@ -129,7 +129,7 @@ func (cj *CookieJar) Set(uri *fasthttp.URI, cookies ...*fasthttp.Cookie) {
 //
 // CookieJar stores copies of the provided cookies, so they may be safely released after use.
 func (cj *CookieJar) SetByHost(host []byte, cookies ...*fasthttp.Cookie) {
-	hostStr := utils.UnsafeString(host)
+	hostStr := jarHostKey(host)
 
 	cj.mu.Lock()
 	defer cj.mu.Unlock()
@@ -138,11 +138,7 @@ func (cj *CookieJar) SetByHost(host []byte, cookies ...*fasthttp.Cookie) {
 		cj.hostCookies = make(map[string][]*fasthttp.Cookie)
 	}
 
-	hostCookies, ok := cj.hostCookies[hostStr]
-	if !ok {
-		// If the key does not exist in the map, make a copy to avoid unsafe usage.
-		hostStr = string(host)
-	}
+	hostCookies := cj.hostCookies[hostStr]
 
 	for _, cookie := range cookies {
 		existing := searchCookieByKeyAndPath(cookie.Key(), cookie.Path(), hostCookies)
@@ -154,6 +150,17 @@ func (cj *CookieJar) SetByHost(host []byte, cookies ...*fasthttp.Cookie) {
 		existing.CopyTo(cookie) // Override cookie properties.
 	}
 	cj.hostCookies[hostStr] = hostCookies
+}
+
+// jarHostKey returns the key under which a host's cookies are stored: the host without
+// its port (Get looks cookies up that way), as a copy - the key stays in the map after the
+// caller's buffer has been reused, and assigning to an existing key replaces the stored key.
+func jarHostKey(host []byte) string {
+	hostStr := utils.UnsafeString(host)
+	if h, _, err := net.SplitHostPort(hostStr); err == nil {
+		hostStr = h
+	}
+	return utils.CopyString(hostStr)
 }
 
 // SetKeyValue sets a cookie for the specified host with the given key and value.
@@ -189,7 +196,7 @@ func (cj *CookieJar) dumpCookiesToReq(req *fasthttp.Request) {
 
 // parseCookiesFromResp parses the cookies from the response and stores them for the specified host and path.
 func (cj *CookieJar) parseCookiesFromResp(host, path []byte, resp *fasthttp.Response) {
-	hostStr := utils.UnsafeString(host)
+	hostStr := jarHostKey(host)
 
 	cj.mu.Lock()
 	defer cj.mu.Unlock()
@@ -198,11 +205,7 @@ func (cj *CookieJar) parseCookiesFromResp(host, path []byte, resp *fasthttp.Resp
 		cj.hostCookies = make(map[string][]*fasthttp.Cookie)
 	}
 
-	cookies, ok := cj.hostCookies[hostStr]
-	if !ok {
-		// If the key does not exist in the map, make a copy to avoid unsafe usage.
-		hostStr = string(host)
-	}
+	cookies := cj.hostCookies[hostStr]
 
 	now := time.Now()
 	resp.Header.VisitAllCookie(func(key, value []byte) {
